@@ -47,6 +47,62 @@ def actions(quick):
     return f
 
 
+FWD_ARM = {'file': 'persistent_remote.py', 'func': '_fetch_results', 'cls': 'PersistentRemoteWorker', 'line_text': 'counter = 0'}
+
+
+def forwarder_script(k, event):
+    """The parent-side forwarding thread is held at its line event k while the child is killed / terminated / fails."""
+    inputs = [1, 2] if event != 'target-exception' else [1, 'POISON', 3]
+    sc = [{'op': 'land_inproc', 'arm': FWD_ARM, 'events': ([{'k': k, 'action': 'pause', 'cap': 15}] if k else [])},
+          {'op': 'create', 'var': 'w', 'kind': 'PR', 'target': 'slow_echo', 'kwargs': {'delay': 0.0}}]
+    for x in inputs:
+        sc.append({'op': 'call', 'var': 'w', 'method': 'enqueue', 'args': [x]})
+    if k:
+        sc.append({'op': 'wait_reached', 'timeout': 6, 'tag': 'reached'})
+    if event == 'sigkill':
+        sc += [{'op': 'sleep', 's': 0.15}, {'op': 'kill', 'var': 'w', 'sig': 'KILL'}, {'op': 'sleep', 's': 0.1}]
+    elif event == 'terminate':
+        sc += [{'op': 'sleep', 's': 0.15}, {'op': 'call', 'var': 'w', 'method': 'terminate', 'kwargs': {'timeout': 0.3, 'force': False}, 'timeout': 20, 'tag': 'terminate'}]
+    elif event == 'none':
+        sc += [{'op': 'call', 'var': 'w', 'method': 'close'}, {'op': 'sleep', 's': 0.2}]
+    else:
+        sc += [{'op': 'sleep', 's': 0.3}]
+    if k:
+        sc.append({'op': 'land_release'})
+    sc += [{'op': 'poll_dead', 'var': 'w', 'timeout': 10, 'tag': 'dead'},
+           {'op': 'drain', 'var': 'w', 'tag': 'drain'},
+           {'op': 'call', 'var': 'w', 'method': 'next_result', 'timeout': 3, 'tag': 'after-end'},
+           {'op': 'get', 'var': 'w', 'attr': 'has_error', 'tag': 'has_error'},
+           {'op': 'land_inproc_report', 'tag': 'report'}]
+    return sc
+
+
+def judge_forwarder(sc, obs, event):
+    if obs.get('driver_hang') or obs.get('driver_error'):
+        return ('harness', obs.get('driver_hang') or obs.get('driver_error'))
+    t = {}
+    for op, st in zip(sc, obs['steps']):
+        if op.get('tag'):
+            t[op['tag']] = st
+        if st.get('harness_error'):
+            return ('harness', st)
+    if 'reached' in t and t['reached'].get('ret') is not True:
+        return ('beyond-end', None)
+    if t.get('dead', {}).get('ret') is not True:
+        return ('worker-not-dead', t.get('dead'))
+    d = t.get('drain', {})
+    exp = [[1], [2]] if event != 'target-exception' else [[1]]
+    if d.get('end') != 'empty':
+        return ('stream-never-ends' if d.get('end') == 'hang' else 'stream-end-%s' % d.get('end'), d)
+    if d.get('ret') != exp[:len(d.get('ret') or [])]:
+        return ('not-a-prefix', d)
+    if t.get('after-end', {}).get('exc') != 'Empty':
+        return ('read-after-end', t.get('after-end'))
+    if t.get('has_error', {}).get('ret') not in (True, False):
+        return ('has_error=None', t.get('has_error'))
+    return None
+
+
 def judge(case, obs):
     if obs.get('driver_hang') or obs.get('driver_error'):
         return ('harness', obs.get('driver_hang') or obs.get('driver_error'))
@@ -101,6 +157,35 @@ def run(ctx):
     scs = scenarios(ctx.quick)
     bases, runs = land.sweep(scs, actions(ctx.quick), full=full)
     forced = land.run_cases(forced_cases(), case_timeout=90)
+    # the parent-side forwarding thread of the remote kind, held at each of its lines while the child ends
+    base = land.run_cases([{'script': forwarder_script(0, 'none') + []}], case_timeout=60)[0]
+    rep = [st for op, st in zip(forwarder_script(0, 'none'), base.get('steps', [])) if op.get('tag') == 'report']
+    fsites = (rep[0].get('ret') or {}).get('sites', []) if rep else []
+    if not fsites:
+        ctx.selftest_fail('no points recorded in the parent-side forwarding thread')
+    ks = [i + 1 for i, st_ in enumerate(fsites) if full or st_[2] == '_fetch_results' or (i and fsites[i - 1][2] == '_fetch_results') or
+          (i + 1 < len(fsites) and fsites[i + 1][2] == '_fetch_results')]
+    fjobs, fplan = [], []
+    for event in ('sigkill', 'terminate', 'target-exception'):
+        for k in ks:
+            sc = forwarder_script(k, event)
+            fjobs.append({'script': sc})
+            fplan.append((k, event, sc))
+    fres = land.run_cases(fjobs, case_timeout=90)
+    ctx.extra['forwarder_points'] = len(fsites)
+    ctx.extra['forwarder_runs'] = len(fjobs)
+    for (k, event, sc), o in zip(fplan, fres):
+        ctx.count()
+        ctx.distinct(('forwarder', k, event))
+        v = judge_forwarder(sc, o, event)
+        ctx.outcome('PR-forwarder:%s:%s' % (event, v[0] if v else 'ok'))
+        if v is None or v[0] == 'beyond-end':
+            continue
+        if v[0] == 'harness':
+            ctx.extra.setdefault('harness_anomalies', []).append({'forwarder': [k, event], 'why': str(v[1])[:160]})
+            continue
+        ctx.violation('LAND/PR/forwarder-held@%s/%s/%s' % (land.site_sig(fsites[k - 1], REPO), event, v[0]), {'k': k, 'event': event, 'site': fsites[k - 1]},
+                      v[1], 'a prefix of the expected results, then the end of the stream', engine='LAND')
     harness = 0
     for obs in bases + runs + forced:
         case = obs['case']
